@@ -142,6 +142,12 @@ def rule_C17(ctx, rule="C17-deleg"):
                 hc = [(bb, t) for bb, t in b.calls() if callee_name(t) in STR_HASH]
                 ok = len(hc) == 1 and norm(describe(b, b.origin_operand(hc[0][1]["args"][0]))) == "TEXT(p1)" and describe(b, b.origin_operand(hc[0][1]["args"][1])) == "p2" and not [n for n in calls if n not in STR_HASH and n not in GLUE_CALLS]
                 ob(ok, "hash = <str as Hash>::hash(text(self), state)", "Hash::hash calls %s" % calls)
+            elif tr == "core::hash::Hash":
+                # hash_slice (or any other provided method) overridden: a slice of strings then hashes by
+                # something else than the texts
+                ob(False, "", "custom Hash::%s on %s: only `hash` is implemented, the provided methods stay str's" % (nm, self_ty))
+            elif tr in ("core::cmp::Ord", "core::cmp::Eq") and nm != "cmp":
+                ob(False, "", "custom %s::%s on %s" % (tr.rsplit("::", 1)[1], nm, self_ty))
             elif tr in ("core::fmt::Display", "core::fmt::Debug") and nm == "fmt":
                 want = "<str as %s>::fmt(TEXT(p1), p2)" % tr
                 okf = ds == [want] and not [n for n in calls if n not in GLUE_CALLS and not n.endswith("::fmt")]
